@@ -22,6 +22,7 @@ RULE = ("case = one word over rows (key tuple incl. null, value null/non-null, m
         "on fresh GroupBy objects; facets: total (no exception), labels, order, values, dtype; "
         "non-trivial = >=2 rows and (>=2 groups or a null key/value or a rejected row)")
 ASSUMPTIONS = [
+    'key dtypes also: timedelta, tz-aware datetime, nullable Int64 / boolean with pd.NA, float32, byte strings, uint8; narrow / unsigned / bool values on chunk-wise keys under a boolean mask',
     "boundary family 'long-groups': two interleaved groups of S and S+3 rows, S around 127/128, 255/256 (quick) plus 32767/32768, 65535/65536 (thorough: all), keys with int8 / int16 group codes (small categoricals, bool, 200 categories) and int keys, values f8 / int8 / uint8 / bool, no mask and a periodic mask",
     "n <= 4 rows (quick) / 5-6 rows (thorough); G <= 3 labels per key; 1-3 keys",
     "dtype/mask-kind dimensions are crossed with the word space one at a time (plus key x value "
